@@ -804,6 +804,10 @@ fn without_repeated_errors(errors: Vec<Error>) -> Vec<Error> { unimplemented!() 
         binop_rank(*token) < 0 ==> (rank(r) == 0 || rank(r) >= 7), //# C13 precedence.postfix_tighter_or_none
         rank(r) == (if tok_rank(*token) >= 0 { tok_rank(*token) } else { 0 }), //# C13 precedence.table_with_call_index_and_field_access_on_top
         rank(r) >= 7 ==> is_postfix_tok(*token), //# C13 precedence.only_postfix_above_factor
+        // C14 (redundant parentheses): `(f)(x)`, `(l)[i]`, `(b).f` are the call / index / field access on `f`, `l`, `b`
+        // wherever they stand, so `(`, `[` and `.` after an operand bind tighter than every binary operator and than the
+        // operand level of the unary operators (Factor = 6) - exactly as they do after an unparenthesised name
+        (*token is LeftParen || *token is LeftBracket || *token is Dot) ==> rank(r) > 6, //# C14,C13 precedence.a_call_index_or_field_access_after_a_parenthesised_operand_binds_tighter_than_every_operator
 //@   endspec
 //@ end
 
